@@ -141,6 +141,9 @@ PROPS["C19"] = {
         I("c19::c19_lex_w121", "thorough", bounds="span_lines_str, widths [1,2,1]", est_gb=8),
         I("c19::c19_lexcol_w11", "thorough", bounds="lrlex LRNonStreamingLexer::line_col (lines, columns, consistency), "
           "widths [1,1], every span", est_gb=8, mem_gb=20, timeout_s=3600),
+        I("c19::c19_lexcol_w12", "thorough", bounds="line_col, widths [1,2] (a free character, then a 2-byte character)",
+          est_gb=8, mem_gb=20, timeout_s=3600),
+        I("c19::c19_lexcol_w21", "thorough", bounds="line_col, widths [2,1]", est_gb=8, mem_gb=20, timeout_s=3600),
         I("c19::c19_lexcol_w111", "thorough", bounds="line_col, widths [1,1,1]", est_gb=16, mem_gb=30, timeout_s=7200),
         I("c19::c19_col_w11", bounds="widths [1,1]"),
         I("c19::c19_col_w111", bounds="widths [1,1,1]", est_gb=5),
